@@ -941,8 +941,18 @@ func (w *vWorld) afterEvent() {
 	waiting := w.waitingJobs()
 	if len(waiting) > 0 && defined && w.undefs == 0 {
 		h := waiting[0]
-		timerPending := h.timer != nil && !h.timer.fired && !h.timer.stopped
-		timerDone := h.timer == nil || h.timer.fired
+		// the wake-up that counts is the timer the job holds NOW (a reload may legitimately re-arm it);
+		// a job that holds no handle any more has had its delay (timerDone)
+		ht := h.timer
+		if cur := h.job.startTimer; cur != nil {
+			for _, vt := range w.timers {
+				if vt.t == cur {
+					ht = vt
+				}
+			}
+		}
+		timerPending := ht != nil && !ht.fired && !ht.stopped
+		timerDone := ht == nil || ht.fired
 		verifAssert(live > 0 || timerPending, "C03.waiting-job-has-a-pending-wakeup")
 		if w.reloads == 0 {
 			// under an unchanged definition: free slot and delay over => it would have been started
